@@ -435,6 +435,7 @@ def run_check(check, tier, base_seed, jobs, runs=None, budget=None, ignore_known
     # violations: minimise, confirm twice, write replay
     reported = []
     unconfirmed = []
+    transient = []
     for v in viol[:3]:
         plan, tapes, neutral, mruns = minimise(pool, check, v["seed"], v["plan"], v["tapes"], v["rule"],
                                                budget_s=60 if tier == "quick" else 180)
@@ -448,8 +449,19 @@ def run_check(check, tier, base_seed, jobs, runs=None, budget=None, ignore_known
                                  "minimised_ops": len(_ops_of(plan) or []), "repo_head": git_head(REPO)})
             reported.append((fin, path))
         else:
-            unconfirmed.append({"seed": v["seed"], "rule": v["rule"], "msg": v["msg"],
-                                "replays": [(c["status"], c.get("rule")) for c in conf]})
+            # not reproducible from its replay: run the original seed again, twice. If that is clean as well the
+            # anomaly was a one-off of the host (not of the seed, the code or the harness' choices) and is reported
+            # as such without failing the check; if the seed reproduces it, the replay machinery is at fault (exit 2)
+            again = []
+            pool.run([{"seed": v["seed"], "tier": tier, "ignore_known": ignore_known} for _ in range(2)],
+                     lambda res, job: again.append(res))
+            rec = {"seed": v["seed"], "rule": v["rule"], "msg": v["msg"],
+                   "replays": [(c["status"], c.get("rule")) for c in conf],
+                   "reruns": [(c["status"], c.get("rule")) for c in again]}
+            if len(again) == 2 and all(c["status"] in ("ok", "discard") for c in again):
+                transient.append(rec)
+            else:
+                unconfirmed.append(rec)
     pool.close()
     wall = time.time() - t0
 
@@ -485,6 +497,7 @@ def run_check(check, tier, base_seed, jobs, runs=None, budget=None, ignore_known
             "determinism_mismatches": len(mismatches),
             "known_findings_hit": agg["known"],
             "unconfirmed_anomalies": unconfirmed,
+            "transient_anomalies": transient,
             "real_components": getattr(check, "REAL", []),
             "stub_components": getattr(check, "STUBS", []),
             "repo_head": git_head(REPO),
@@ -515,6 +528,9 @@ def run_check(check, tier, base_seed, jobs, runs=None, budget=None, ignore_known
     for line in known_lines:
         print(line, file=out)
     code = 0
+    for t in transient:
+        print("TRANSIENT anomaly (seen once, neither its replay nor two reruns of seed %s reproduce it; not counted): "
+              "rule=%s %s" % (t["seed"], t["rule"], (t["msg"] or "")[:300]), file=out)
     for fin, path in reported:
         print("VIOLATION property=%s replay=%s" % (prop, path), file=out)
         print("  rule=%s sig=%s: %s" % (fin["rule"], fin["sig"], fin["msg"]), file=out)
